@@ -1,4 +1,5 @@
 """C01: the KV store behaves as an ordered map for every operation history."""
+import time
 from vlib import common as C
 from vlib.diff import Case, differential
 from checks import kvgen as G
@@ -39,12 +40,31 @@ THEOREMS = [
     "IwModel.C01.compound_store_refines_map",
     "IwModel.C01.vnum_store_refines_map",
     "IwModel.C01.real_store_refines_map",
+    # the property as written: whole store (several databases, all put flavours, metadata) against the
+    # reference map of Model/KvApiSpec.lean
+    "IwModel.C01.api_put_refines",
+    "IwModel.C01.api_get_refines",
+    "IwModel.C01.api_getcopy_refines",
+    "IwModel.C01.api_del_refines",
+    "IwModel.C01.api_meta_refines",
+    "IwModel.C01.api_opendb_refines",
+    "IwModel.C01.api_destroydb_refines",
+    "IwModel.C01.api_step_refines",
+    "IwModel.C01.api_history_refines_from",
+    "IwModel.C01.api_history_refines",
+    "IwModel.C01.api_history_spec_sorted",
+    "IwModel.C01.spec_error_preserves",
+    "IwModel.C01.api_error_preserves_contents",
+    "IwModel.C01.spec_db_frame",
+    "IwModel.C01.api_db_frame",
 ]
 MANIFEST = dict(
     level="proof",
     text=("Lean 4 refinement theorems: the node-level model of iwkv (routing, add-to-upper, split at slot 17, node removal) "
-          "simulates the ordered-map spec for every history and every level choice, errors leave the state unchanged, databases are "
-          "framed; the model is tied to the code by replaying generated histories (all six key modes, 1-3 databases, WAL on/off, forced "
+          "simulates the ordered-map spec for every history and every level choice, and the whole API model (several databases of any "
+          "key mode, put plain/no-overwrite/increment/handler, get, get-copy, delete, metadata, db create/destroy) returns for every "
+          "history exactly the lines and contents of the reference map (api_history_refines, no hypothesis); errors leave every "
+          "database unchanged, databases are framed; the model is tied to the code by replaying generated histories (all six key modes, 1-3 databases, WAL on/off, forced "
           "skip-list levels, values up to 70 KB) through the public API and comparing every result, full dumps and node boundaries with "
           "the compiled Lean model and with an independent python reference map"),
     note=("trusted: Lean kernel, harness/generators, python reference; modelled not verified: C control flow of iwkv.c; byte-level "
@@ -151,10 +171,13 @@ def shrink(ctx, h, case):
     def mismatches(ops):
         ref = G.Ref()
         exp = [ref.apply(l) for l in ops]
-        rc, o, e = C.run_lines([h, C.scratch() + "/kv-shrink.db"], ops, timeout=60)
+        if time.time() > deadline[0]:
+            return []
+        rc, o, e = C.run_lines_stall([h, C.scratch() + "/kv-shrink.db"], ops, timeout=30, stall=5)
         if rc != 0 or len(o) < len(ops):
             return ["crash"]
         return [opsig(l) for l, x, y in zip(ops, exp, o) if x is not None and x != y]
+    deadline = [time.time() + 90]      # shrinking is a convenience: never let it dominate the run
     orig = mismatches(case.ops)
     want = orig[0] if orig else None
 
@@ -207,7 +230,7 @@ def run(ctx):
     else:
         explore(ctx, h, drv, 600, 400, "t")
         explore(ctx, h, drv, 20, 10000, "tlong", big=False)
-    if ctx.proof_broken or ctx.corr_broken:
+    if (ctx.proof_broken or ctx.corr_broken) and not ctx.violations:
         for i in range(3):
             explore(ctx, h, drv, 80, 400, "search%d" % i)
 
